@@ -288,6 +288,17 @@ def run(cx):
                 region = b.reach_from([m.bb])
                 yp = [c for c in b.calls(f'{S1}::interpolate') if match(f'(call * (param self) (param {pname}))', cx.call(c)) is not None and c.bb in region]
                 cx.ob('EXPR', f'Series1::between:{pname}:ordinate', len(yp) == 1, f'the ordinate inserted with {pname} is self.interpolate({pname})', found=str(len(yp)))
+        # the upper bound closes the piece exactly when the last abscissa kept is below it - under that test alone
+        xp = [m for m in b.mutations() if m.callee == 'Vec::push' and match('(param x1)', simplify(b.dag().operand(m.args[1], m.bb, len(b.blocks[m.bb]['stmts'])))) is not None]
+        fin = b.calls('*DiscreteDomain::try_from')
+        okc = len(xp) == 1 and len(fin) == 1
+        own = []
+        if okc:
+            own = sorted(set(cx.guards(b, xp[0].bb)) - set(cx.guards(b, fin[0].bb)), key=str)
+            okc = len(own) == 1 and own[0][1] is True and match('(lt (last _) (param x1))', own[0][0]) is not None
+        cx.ob('GUARD', 'Series1::between:x1:closing-test', okc,
+              'x1 (with its interpolated ordinate) is appended under `last kept abscissa < x1` and under no further condition: a bound strictly inside the last segment still ends the piece',
+              where=b.file, found='; '.join(('' if p else 'NOT ') + show(a)[:160] for a, p in own))
     run_series_functions(cx)
 
 
